@@ -9,20 +9,24 @@ PROP = dict(
             dict(name="lend-handover-witness", go_test="TestC08Handover", runner="C08"),
         ],
         rule="case = one history of 20-50 messages (lend / deposit / withdraw / close-lend / borrow / borrow-alternate / deposit-borrow / draw / "
-             "repay / close-borrow / calculate-interest-and-rewards) by 3 users over 2 pools x 3 assets with 12 same-pool and 5 cross-pool pairs "
+             "repay / close-borrow / calculate-interest-and-rewards, and hand-overs of positions to the liquidation auction through "
+             "liquidationsV2 MsgLiquidateInternalKeeper, half of them after a crash of the collateral price) by 3 users over 2 pools x 3 assets with 12 same-pool and 5 cross-pool pairs "
              "(one e-mode pair, one isolated asset, stable borrows), oracle moves and time gaps of 0 s .. 4 years between messages; amounts "
              "boundary-directed (available +-1, LTV threshold +-1/+2, pool balance +-1, interest / reserve-share truncations +-1, exact close-out), "
-             "one borrow in ten names a lend position of another asset of the pool (C08-F1); plus the scripted C08-F1 witness; "
+             "one borrow in ten names a lend position of another asset of the pool (C08-F1); plus the scripted witnesses of C08-F1 and C08-F2; "
              "after EVERY message the full projection (pool-asset stats, every lend / borrow record, balances, cToken supplies, counters) is diffed "
-             "against the model and the extracted predicates holds_C08_lend / holds_C08_borrow / mismatched_lend (all positions) and, for a successful "
+             "against the model and the extracted predicates holds_C08_lend / holds_C08_borrow / holds_C08_avail / mismatched_lend (all positions) and, for a successful "
              "borrow / draw / withdraw / close-lend, holds_C08_ltv / holds_C08_ltv_new / holds_C08_pool / holds_C08_pledged judge the implementation's state; "
-             "non-trivial = at least one borrow succeeded in the history; distinct by digest of the message sequence",
+             "a books failure is suppressed only after a successful message of class kf_C08_2 in the same history; "
+             "non-trivial = at least one borrow succeeded (or a position was handed over) in the history; distinct by digest of the message sequence",
         modelled=["interest arithmetic (CalculateLendReward / CalculateBorrowInterest / APR, C18's subject) enters as ENV values measured on a throw-away "
                   "cache context at the block time of the message (arbitrary in the theorems); what IterateLends/IterateBorrow DO with them is modelled",
+                  "the liquidation hand-over (liquidationsV2 LiquidateIndividualBorrow -> UpdateLockedBorrows) is modelled as coded in its effect on the lend "
+                  "books; its DECISION (ratio above the liquidation threshold, C09's subject) and the interest of IterateBorrowForLiq are ENV values the harness "
+                  "measures with the keeper's own functions; CreateLockedVault / AuctionActivator write liquidation / auction state only (not projected)",
                   "not modelled, never issued by the generator: FundModAcc, FundReserveAcc (RemoveFaultyAuctions), RepayWithdraw, DeletePoolAndTransferInterest, "
-                  "liquidation hand-over (UpdateLockedBorrows / CreteNewBorrow), ESM kill switch, pool depreciation. Positions under liquidation are "
-                  "represented (IsLiquidated is projected, excluded from the sums as the property says) but no modelled message sets the flag, so the "
-                  "'not under liquidation' clauses are carried for histories of the eleven messages only",
+                  "what happens to a handed-over position afterwards (auction close MsgCloseDutchAuctionForBorrow, CreteNewBorrow), the first-generation "
+                  "liquidation, ESM kill switch, pool depreciation",
                   "reserve buy-back / AllReserveStats / FundModBal records are not projected",
                   "sort.Search (binary) modelled as first index with ids[i] >= id; equal on ascending lists, and the id lists are proved ascending (= filter of 1..n)",
                   "the pool-holds-the-loan predicate is evaluated on the message's pre-state for Draw and for a Borrow that opens a position; for DepositDraw "
@@ -35,9 +39,12 @@ PROP = dict(
     )
 
 MANIFEST = dict(
-    level_text="Both book identities (total lent = available + pledged-and-not-auctioned collateral; totals borrowed variable/stable = principal of open "
+    level_text="PARTIAL (known finding C08-F2). Both book identities (total lent = available + pledged-and-not-auctioned collateral; totals borrowed variable/stable = principal of open "
                "non-liquidated borrows; published id lists = exactly the positions of the pool-asset) proved as an inductive invariant of all eleven lend "
-               "messages (same-pool and cross-pool) and lifted to every finite history with arbitrary oracle prices and arbitrary interest / reward inputs; "
+               "messages (same-pool and cross-pool) and of the hand-over of a position to a liquidation auction, and lifted to every finite history with arbitrary "
+               "oracle prices and arbitrary interest / reward / liquidation-decision inputs OUTSIDE known-finding class kf_C08_2; inside it (the hand-over deletes a "
+               "lend record that still has available-to-borrow or other open positions) the identity of total lent is proved refuted with a witness replayed on "
+               "the real keepers (2 000 313 940 published vs 2 000 000 000 held by positions); AvailableToBorrow >= 0 in every reachable state; "
                "loan-to-value decision rule of Borrow / Draw / BorrowAlternate with the explicit one-ulp Quo slack (and the bridged-coin bound for new "
                "cross-pool positions), pool-holds-the-loan and pledged-collateral safety of Withdraw / CloseLend proved per message from any invariant "
                "state, hence after every history. Finding C08-F1 (BorrowAsset accepted a lend position of another asset than the pair's asset in and priced "
@@ -46,6 +53,7 @@ MANIFEST = dict(
                "the witness stays as a scripted workload. The model is tied to /repo by a differential run through the real lend message server on every check.",
     design_ref="DESIGN.md section 4 C08",
     level_note="Trusted: Coq kernel, extraction (ExtrOcamlBasic), OCaml runner, Go harness. Interest arithmetic is an environment input (C18). "
-               "Liquidation hand-over and the governance / funding messages are not modelled (listed in the evidence). No axioms (Closed under the global context).",
+               "The liquidation decision is an environment input (C09); auction close / return of a handed-over position and the governance / funding "
+               "messages are not modelled (listed in the evidence). No axioms (Closed under the global context).",
     technique="Coq proof (inductive invariants over message histories, decision rules with explicit Dec rounding) + model/implementation correspondence run",
 )
